@@ -21,6 +21,8 @@ for d in sorted(glob.glob(os.path.join(VERIF, "seeded", "*"))):
         if first[c] != last[c]:
             s = f"{last[c]} (first run: {first[c]}; check strengthened)"
         status.append(f"{c}: {s}")
+    if m.get("note"):
+        status.append("note: " + m["note"].replace("|", "/"))
     rows.append((os.path.basename(d), m.get("summary", "")[:170].replace("|", "/"), (m.get("needs") or "")[:150].replace("|", "/"), "; ".join(status)))
 print("| seed | change | needs to manifest | checks |")
 print("|---|---|---|---|")
